@@ -75,7 +75,7 @@ def unary_table(variant):
 
 
 def set_seen_line(name, pairs):
-    return f'set_seen {name} {len(pairs)} ' + ' '.join(enc_cat(a) + ' ' + enc_cat(b) for a, b in pairs)
+    return (f'set_seen {name} {len(pairs)} ' + ' '.join(enc_cat(a) + ' ' + enc_cat(b) for a, b in pairs)).strip()
 
 
 def set_unary_line(name, table):
@@ -98,16 +98,21 @@ def rule_triples(lang):
     return out
 
 
-def pattern_pairs(rng, patterns, pool, feats, n, slashes=('/', '\\')):
+def pattern_pairs(rng, patterns, pool, feats, n, slashes=('/', '\\'), deep=None):
     """instantiate both patterns of a rule with shared variable bindings from pool, then
     (mostly) perturb one feature or slash on one side"""
     out = []
     for _ in range(n):
         px, py = rng.choice(patterns)
         binding = {}
+        if deep is not None and rng.random() < 0.35:
+            # complex bindings: a variable bound to a functor whose own argument is a functor
+            use = deep
+        else:
+            use = pool
         # small categories for the variables keep the pairs readable and near the boundary
-        x = gen_cat.instantiate(rng, Category.parse(px), binding, pool, slashes)
-        y = gen_cat.instantiate(rng, Category.parse(py), binding, pool, slashes)
+        x = gen_cat.instantiate(rng, Category.parse(px), binding, use, slashes)
+        y = gen_cat.instantiate(rng, Category.parse(py), binding, use, slashes)
         k = rng.random()
         if k < 0.35:
             x = gen_cat.perturb(rng, x, feats)
